@@ -34,6 +34,31 @@ CHECKS = {
         ref="DESIGN.md 6 (C18)",
         technique="TLC-generated programs replayed into the real simplifier under a per-case timeout; TLC trace "
                   "validation of totality / well-formedness clauses"),
+    "C15": dict(
+        text="TLC enumerates queries with MetaData wrappers (empty / non-empty, adjacent, nested, inside lambda bodies "
+             "and operator arguments); the real extract_metadata and remove_empty_metadata are run on each and TLC judges "
+             "the recorded (in, out, list, input-after) against the exact specification in spec/Passes.tla: out = "
+             "StripMD(in), the list is a linear extension of 'outer before the wrappers inside its source' over exactly "
+             "the wrappers present, out = RemoveEmptyMD(in), and the argument is unchanged afterwards.",
+        ref="DESIGN.md 6 (C15)",
+        technique="TLC-generated queries replayed into the real passes; TLC trace validation against exact rewrite "
+                  "specs (StripMD / LinExt / RemoveEmptyMD) incl. argument-unmodified flag"),
+    "C17": dict(
+        text="TLC enumerates queries mixing method-form and function-form operator calls at all depths (incl. non-operator "
+             "methods of the same shape and keyword arguments); the real change_extension_functions_to_calls output is "
+             "judged by TLC: out = ToFunctionForm(in) exactly, no method-form operator left, second application is the "
+             "identity, and Eval(out) = Eval(in) on every model dataset.",
+        ref="DESIGN.md 6 (C17)",
+        technique="TLC-generated mixed-form queries replayed into the real pass; TLC trace validation against the exact "
+                  "rewrite spec plus semantic equality"),
+    "C19": dict(
+        text="TLC enumerates expressions with the five shortcut names in call, method, nested, inside-lambda, bare and "
+             "wrong-arity positions; the real aggregate_node_transformer output is judged by TLC: skeleton equal outside "
+             "lowered calls, no one-argument shortcut left, each produced fold evaluated by Sem on all 40 integer "
+             "sequences of length <= 3 over {-2,0,3} equals len/sum/max0/min0, and Eval equality on the model datasets.",
+        ref="DESIGN.md 6 (C19)",
+        technique="TLC-generated expressions replayed into the real pass; TLC trace validation (skeleton match, fold "
+                  "evaluation on all small integer sequences, semantic equality)"),
 }
 
 ORDER = ["C%02d" % i for i in range(1, 21)]
